@@ -45,7 +45,7 @@ def check(ctx):
     rep = ctx.path("c20exec.json")
     r = vh(ctx, ["c20exec", ctx.seed, ctx.tier, rows, rep, kept], timeout=7200, check=False)
     if r.returncode == 3:
-        m = re.search(r'\{"hang": "(.*?)"', r.stdout or "")
+        m = re.search(r'\{"hang":\s*"(.*?)"', r.stdout or "")
         ctx.violation("the dictionary builder makes no progress for 30 s (does not terminate) for %s" % (m.group(1) if m else "?"), {"case": m.group(1) if m else None}, tag="hang")
         return ctx.finish("model_checking")
     if r.returncode != 0:
